@@ -292,12 +292,12 @@ def rmCon (i : Nat) (cl : Column) : Column := { cl with cons := cl.cons.filter (
     connection of the first column still joins them (`set.discard`); dict entry and list entry removed -/
 def delConn (g : Geo) (names : Name × Name) (i : Nat) : Geo :=
   let k := g.con i
-  let g1 := (g.updCol k.c0 (rmCon i)).updCol k.c1 (rmCon i)
-  let still := (g1.col k.c0).cons.any fun j => (g1.con j).c0 = k.c1 || (g1.con j).c1 = k.c1
-  let g2 := if still then g1 else
-    (g1.updCol k.c0 fun cl => { cl with nbrs := setDiscard cl.nbrs k.c1 }).updCol k.c1 fun cl =>
+  let C1 := (g.C.modify k.c0 (rmCon i)).modify k.c1 (rmCon i)
+  let still := (C1[k.c0]!).cons.any fun j => (g.con j).c0 = k.c1 || (g.con j).c1 = k.c1
+  let C2 := if still then C1 else
+    (C1.modify k.c0 fun cl => { cl with nbrs := setDiscard cl.nbrs k.c1 }).modify k.c1 fun cl =>
       { cl with nbrs := setDiscard cl.nbrs k.c0 }
-  { g2 with connD := g.connD.del names, connlist := g.connlist.erase i }
+  { g with C := C2, connD := g.connD.del names, connlist := g.connlist.erase i }
 
 /-- `delete_connection(colnames)`: `KeyError` when the key is unknown or a column does not list the connection
     (`set.remove`), `ValueError` when the connection is not in `connectionlist` (`list.remove`) -/
